@@ -711,4 +711,112 @@ theorem value_conformant {seg : Bytes} {p : Param} {dv : Value}
   | 6, _ => exact conf_ipv6 _ _ _ hm hd hv
   | k + 7, h => omega
 
+/-- position by position: the RFC reader of parameter `p` yields the value `v` -/
+inductive Conf : List Param → List Value → Prop
+  | nil : Conf [] []
+  | cons {p v ps vs} : decodeValue p.key p.value = some v → v.key = p.key → Conf ps vs →
+      Conf (p :: ps) (v :: vs)
+
+theorem Conf.of_parsed {segs ps} (hp : Parsed segs ps) : ∀ vs, mapM' declSeg segs = some vs →
+    (∀ v ∈ vs, valid v = true) → Conf ps vs := by
+  induction hp with
+  | nil => intro vs h _; simp [mapM'] at h; subst h; exact Conf.nil
+  | @cons s p ss ps' h1 _ ih =>
+    intro vs h hv
+    simp only [mapM'] at h
+    cases hd : declSeg s with
+    | none => simp [hd] at h
+    | some dv =>
+      cases hm : mapM' declSeg ss with
+      | none => simp [hd, hm] at h
+      | some vs' =>
+        simp [hd, hm] at h
+        subst h
+        obtain ⟨c1, c2⟩ := value_conformant h1 hd (hv dv List.mem_cons_self)
+        exact Conf.cons c1 c2 (ih vs' hm (fun v hv' => hv v (List.mem_cons_of_mem _ hv')))
+
+theorem Conf.insert {p v ps vs} (h1 : decodeValue p.key p.value = some v) (h2 : v.key = p.key)
+    (h : Conf ps vs) : Conf (insertBy Param.key p ps) (insertBy Value.key v vs) := by
+  induction h with
+  | nil => exact Conf.cons h1 h2 Conf.nil
+  | @cons q w qs ws a b c ih =>
+    unfold insertBy
+    by_cases hle : p.key ≤ q.key
+    · rw [if_pos hle, if_pos (by rw [h2, b]; exact hle)]
+      exact Conf.cons h1 h2 (Conf.cons a b c)
+    · rw [if_neg hle, if_neg (by rw [h2, b]; exact hle)]
+      exact Conf.cons a b ih
+
+theorem Conf.sort {ps vs} (h : Conf ps vs) : Conf (sortBy Param.key ps) (sortBy Value.key vs) := by
+  induction h with
+  | nil => exact Conf.nil
+  | cons a b _ ih => unfold sortBy; exact Conf.insert a b ih
+
+theorem Conf.mapM {ps vs} (h : Conf ps vs) :
+    mapM' (fun kv : Nat × Bytes => decodeValue kv.1 kv.2) (ps.map fun p => (p.key, p.value)) = some vs := by
+  induction h with
+  | nil => rfl
+  | cons a _ _ ih => simp only [List.map_cons, mapM', a, ih]
+
+theorem mandatoryPresent_perm {vs d : List Value} (hp : d.Perm vs) (h : mandatoryPresent vs = true) :
+    mandatoryPresent d = true := by
+  unfold mandatoryPresent at h ⊢
+  rw [List.all_eq_true] at h ⊢
+  intro v hv
+  have := h v (hp.mem_iff.mp hv)
+  cases v with
+  | mandatory ks =>
+    simp only [List.all_eq_true, List.any_eq_true] at this ⊢
+    intro k hk
+    obtain ⟨x, hx, hxk⟩ := this k hk
+    exact ⟨x, hp.mem_iff.mpr hx, hxk⟩
+  | _ => rfl
+
+theorem toWire_length_ge (l : List Param) : l.length ≤ (toWire l).length := by
+  induction l with
+  | nil => simp [toWire]
+  | cons p ps ih =>
+    simp only [toWire, List.flatMap_cons, List.length_append, List.length_cons] at ih ⊢
+    simp only [paramToWire, u16be, List.length_append, List.length_cons, List.length_nil]
+    omega
+
+/-- no parameter follows an empty `;` segment -/
+def NoDrop (t : Bytes) : Prop := (splitOn 0x3b t).filter (fun s => !s.isEmpty) = liveSegs t
+
+theorem decode_recovers_declared' {t : Bytes} {l : List Param} {d : List Value}
+    (h : fromText t = .ok l) (hn : NoDrop t) (hd : declared t = some d) (hf : Fits l) :
+    decodeRFC (toWire l) = some d := by
+  obtain ⟨ps, hp, hm, hl⟩ := fromText_ok h
+  have hpar : Parsed (liveSegs t) ps := parseSegs_forall2 _ _ _ hp
+  unfold declared at hd
+  rw [hn] at hd
+  cases hv : mapM' declSeg (liveSegs t) with
+  | none => simp [hv] at hd
+  | some vs =>
+    simp only [hv] at hd
+    split at hd
+    · rename_i hc
+      simp only [Bool.and_eq_true] at hc
+      obtain ⟨⟨hval, _⟩, hmp⟩ := hc
+      have hd := Option.some.inj hd
+      have hconf : Conf l d := by
+        rw [hl, ← hd]
+        exact (Conf.of_parsed hpar vs hv (fun v hv' => List.all_eq_true.mp hval v hv')).sort
+      have hks : KeysSmall l := by
+        intro p hp'
+        rw [hl] at hp'
+        obtain ⟨s, _, hs⟩ := hpar.of_right ((sortBy_perm _ _).mem_iff.mp hp')
+        obtain ⟨n, v, _, hk, _⟩ := paramFromText_ok hs
+        have := keyOfName_le hk
+        omega
+      unfold decodeRFC
+      rw [decodeRaw_toWire l hf hks _ (toWire_length_ge l)]
+      have hinc : strictlyIncreasing ((l.map fun p => (p.key, p.value)).map (·.1)) = true := by
+        apply strictlyIncreasing_of_pairwise
+        rw [List.map_map]
+        exact List.pairwise_map.mpr (fromText_keys_lt h)
+      simp only [hinc, Bool.not_true, Bool.false_eq_true, if_false, hconf.mapM]
+      rw [if_pos (mandatoryPresent_perm (by rw [← hd]; exact sortBy_perm _ _) hmp)]
+    · simp at hd
+
 end DnsVerif.Svcb
